@@ -102,6 +102,10 @@ func runPrelude(spec string) {
 		if len(one) < 2 {
 			continue
 		}
+		if one[0] == '@' { // armed: run from inside the case's own callback (round5.go)
+			arm(one)
+			continue
+		}
 		p := strings.Split(one[1:], ".")
 		num := func(i int) int {
 			if i < len(p) {
@@ -446,7 +450,7 @@ func execViews(f []string) string {
 	if f[1] == "e" {
 		res = slice.LCS(as, bs)
 	} else {
-		res = slice.LCSFunc(as, bs, eqFor(f[1]))
+		res = slice.LCSFunc(as, bs, hookEq(eqFor(f[1])))
 	}
 	afterCall()
 	m := !slices.Equal(arr, arr0)
